@@ -100,6 +100,8 @@ kf("C04", "C04-round-ties", "round() is emitted as metal::round (ties away from 
    ["C04|F1/call/round/*|*|mismatch"])
 kf("C04", "C04-select-ternary-precedence", "a scalar select() used as an operand of a binary operator was written as an unparenthesised ternary: `select(a, b, c) + d` became `c ? b : a + d`",
    ["C04|F4c/bin:*(call:select:*|*|mismatch", "C04|F4c/bin:*(call:select:*|*|trap:*"], "fixed:d5f63a7")
+kf("C04", "C04-swizzle-of-inline-expression-unparenthesised", "a swizzle applied to a binary expression that is written inline is emitted without parentheses: `(a * b).yx` becomes `a * b.yx` (wrong value; for `(a * b).xxyy` a type error). The repair (parenthesise the operand in writeSwizzle) was written and withdrawn: the repository's golden file 7048-multiple-dynamic-2.msl encodes `val_0_ * val_1_.xxyy`, so the existing suite fails with it",
+   ["C04|F4c/swz:*(bin:*|*|mismatch", "C04|F4c/swz:*(call:select:*|*|mismatch", "C04|F4c/*(swz:*|*|mismatch", "C04|F4c/swz:*(bin:*|*|malformed-output*", "C04|F4c/*(swz:*|*|malformed-output*"])
 kf("C04", "C04-firstLeadingBit-u32", "firstLeadingBit(u32) guards with `x == 0 || x == -1`; for unsigned x the second test matches 0xFFFFFFFF, which yields 0xFFFFFFFF instead of 31",
    ["C04|F1/call/firstLeadingBit/*u32*|*|mismatch"])
 kf("C04", "C04-int-dot-overflow", "dot() on i32 vectors is emitted as plain `a.x * b.x + ...` on int; signed overflow is undefined in MSL/C++ (WGSL wraps)",
@@ -114,7 +116,7 @@ kf("C04", "C04-forward-call-inside-bitcast", 'forward call inside a bitcast oper
 
 # ---------------------------------------------------------------- C05 (GLSL semantics)
 kf("C05", "C05-vector-select-ternary", "select() with a vector condition is emitted as `bvec ? a : b`; the ?: condition must be a scalar bool in GLSL (invalid at every version)",
-   ["C05|F1/call/select/*|*|malformed-output*"])
+   ["C05|F1/call/select/*|*|malformed-output*", "C05|F4c/*|*|malformed-output:condition of ?: has type bvec#; it must be a scalar bool"])
 kf("C05", "C05-clz-ctz", "countTrailingZeros is emitted as findLSB (ctz(0) = -1 instead of 32) and countLeadingZeros(i32) as 31 - findMSB(x) (wrong for negative x); for u32 both are int expressions assigned to uint (a type error in ES)",
    ["C05|F1/call/countLeadingZeros/*|*|m*", "C05|F1/call/countTrailingZeros/*|*|m*"])
 kf("C05", "C05-global-init-scalar-conversion", "a module-scope variable initialised with a scalar conversion of a negated literal (`var<private> p: i32 = i32(-2147483648);`) is emitted as `int p = int(0)`: the conversion's operand is lost",
